@@ -236,7 +236,9 @@ static void enumerate(void) {
             "metadata accessors, out-of-range indices, statistics, predicates, column readers (read sizes 0,1,3,64, skip, re-creation) with caller buffers sized from the schema, and the batch reader (batch sizes 1,4,default; projection). "
             "Oracle: ASan, CPU budget proportional to the input, library allocation balance after close, error contract. Non-trivial = every image; distinct by descriptor hash.");
     const char* sd = getenv("VERIF_SCRATCH"); snprintf(g_path, sizeof g_path, "%s/c04_%d.parquet", sd ? sd : "/dev/shm", (int)getpid());
+    mc_prologue("warm-up read of two valid seed files");
     { /* warm process-lifetime caches so that they are not counted as leaks */ g_warm = true; ref_buf w; ref_buf_init(&w); if (!make_seed(3, &w)) { mcf_reset(); try_image(w.p, w.n, "warm-up"); } ref_buf_free(&w); ref_buf_init(&w); if (!make_seed(2, &w)) try_image(w.p, w.n, "warm-up"); ref_buf_free(&w); (void)carquet_init(); mcf_reset(); ref_arena_free(&RA); g_warm = false; }
+    mc_prologue_end();
     for (int pass = 0; pass < (mc_thorough() ? 2 : 1); pass++) {
         mc_stage(pass ? "distance-2.pairs-of-integer-fields" : "distance-1.structural-mutations");
         for (int k = 0; k < NSEED; k++) {
@@ -287,6 +289,22 @@ static void enumerate(void) {
                 char d[112]; snprintf(d, sizeof d, "c04:%s;page#%d-body@%zu:u32=%u", seed, p, o, V[vi]); mc_case_key(mc_hash(d, strlen(d), g_salt)); mc_nontrivial(); mc_feature("page-body-u32"); try_image(m, img.n, d); } }
         free(m); ref_buf_free(&img); ref_arena_free(&RA);
     }
+    /* valid wide files whose parsed metadata crosses the 64 KiB block size of the reader's arena: the common name length and the last name's length are swept byte by byte,
+     * so that the allocations near the end of the block occur at every offset and alignment */
+    mc_stage("valid-wide-files.metadata-arena-block-boundary-sweep");
+    { enum { K = 150 }; static ref_schema_elem sc[K + 1]; static ref_coldata cols[K]; static ref_chunk_layout L[K]; static char names[K][640]; static int16_t zero16[2]; static uint8_t val[8] = { 7, 0, 0, 0 };
+      int b0 = getenv("C04_B0") ? atoi(getenv("C04_B0")) : 8, b1 = getenv("C04_B1") ? atoi(getenv("C04_B1")) : (mc_thorough() ? 136 : 72);
+      for (int base = b0; base < b1; base += 3) for (int extra = 0; extra < 16; extra++) { int which = 1, len = base + extra;
+          if (!mc_next()) continue;
+          memset(sc, 0, sizeof sc); memset(cols, 0, sizeof cols); memset(L, 0, sizeof L); sc[0].name = (ref_bin){ (const uint8_t*)"schema", 6, true }; sc[0].has_num_children = true; sc[0].num_children = K;
+          for (int c = 0; c < K; c++) { int nl = (c == (which ? K - 1 : 0)) ? len : base; memset(names[c], 'x', (size_t)nl); int pl = snprintf(names[c], 8, "c%03d", c); names[c][pl] = 'x'; if (nl < 4) nl = 4; names[c][nl] = 0;
+              sc[c + 1].name = (ref_bin){ (const uint8_t*)names[c], nl, true }; sc[c + 1].has_type = true; sc[c + 1].type = PT_INT32; sc[c + 1].has_rep = true; sc[c + 1].rep = 0;
+              cols[c].ptype = PT_INT32; cols[c].nlevels = 1; cols[c].nvalues = 1; cols[c].def = zero16; cols[c].rep = zero16; cols[c].fixed = val; L[c].crc = true; }
+          int64_t rows = 1; ref_write_req rq; memset(&rq, 0, sizeof rq); rq.schema = sc; rq.nschema = K + 1; rq.nleaves = K; rq.nrg = 1; rq.rg_rows = &rows; rq.cols = cols; rq.layouts = L; ref_buf img; ref_buf_init(&img);
+          if (ref_pq_write(&RA, &rq, &img, NULL, 0, NULL)) mc_harness_error("reference writer failed (wide file)");
+          char d[96]; snprintf(d, sizeof d, "c04:wide;%d columns;names=%d bytes;last-name=%d bytes", K, base, len); mc_case_key(mc_hash(d, strlen(d), 0xc04f)); mc_nontrivial(); mc_feature("wide-valid-file");
+          try_image(img.p, img.n, d); ref_buf_free(&img); ref_arena_free(&RA);
+      } }
     mc_stage("families.nesting-depth.payload-free-counts");
     { ref_buf img; ref_buf_init(&img); if (make_seed(0, &img)) mc_harness_error("seed"); ref_file rf; if (ref_pq_read(&RA, img.p, img.n, &rf, 0)) mc_harness_error("seed0");
       static const long DEPTH[] = { 1, 31, 32, 33, 1000, 100000, 1000000 };
